@@ -238,9 +238,11 @@ def table_case(cid, rng, cfg, k, hashkind):
         lines.append("symname 3 " + hx(nm))
     for _ in range(4):
         lines.append("symname 3 " + hx(rname(rng, 1, 11) + b"~"))
-    seen = set()
     for s in syms[:10]:
         lines.append("symval 3 %d" % (s[1] % 2**w))
+        # the value as given (ELF32 truncates what is stored, not what is asked for) and a value equal in its low bits only
+        lines.append("symval 3 %d" % s[1])
+        lines.append("symval 3 %d" % ((s[1] % 2**32) + (rng.choice([1, 2, 2**31]) << 32)))
     lines.append("symval 3 %d" % rval(rng, w))
     return Case(cid, lines, meta_from_lines(lines))
 
